@@ -212,3 +212,103 @@ class MappedStatusword:
     @property
     def raw(self):
         return self.link.sw
+
+
+# ---- operation mode carried by PDO ------------------------------------------------------------------------------------
+class ModeLink:
+    """Assumed contract of the PDO transport of 6060h (modes of operation, in an RPDO) and 6061h (modes of operation
+    display, in a TPDO): the RPDO reaches the drive when it is transmitted (event-driven) or with the next cycle
+    (periodic); the conformant drive then displays the mode it was given; the TPDO reports the display after every
+    change (event-driven) or every cycle (periodic), and every reception runs the node's callback."""
+
+    def __init__(self, drive, node, periodic):
+        self.drive = drive
+        self.node = node
+        self.periodic = periodic
+        self.code = 0
+        self.pending = False
+        self.display = 0
+
+    def deliver_mode(self):
+        if self.pending:
+            self.pending = False
+            before = self.drive.mode
+            rt.emit("mode", self.code)
+            self.drive.mode = self.code
+            if not self.periodic and self.drive.mode != before:
+                self.send_tpdo()
+
+    def send_tpdo(self):
+        self.display = self.drive.mode
+        rt.emit("tpdo", self.display)
+        self.node.on_TPDOs_update_callback(ModeTpdoMap(self))
+
+
+class ModeRpdoVar:
+    index = 0x6060
+
+    def __init__(self, link):
+        self.link = link
+        self.pdo_parent = ModeRpdoMap(link)
+
+    @property
+    def raw(self):
+        return self.link.code
+
+    @raw.setter
+    def raw(self, value):
+        self.link.code = value
+        self.link.pending = True
+
+
+class ModeRpdoMap:
+    def __init__(self, link):
+        self.link = link
+
+    @property
+    def is_periodic(self):
+        return self.link.periodic
+
+    def transmit(self):
+        rt.emit("rpdo", self.link.code)
+        self.link.deliver_mode()
+
+
+class ModeTpdoVar:
+    index = 0x6061
+
+    def __init__(self, link):
+        self.link = link
+        self.pdo_parent = ModeTpdoMap(link)
+
+    @property
+    def raw(self):
+        return self.link.display
+
+
+class ModeTpdoMap:
+    def __init__(self, link):
+        self.link = link
+
+    @property
+    def is_periodic(self):
+        return self.link.periodic
+
+    def __iter__(self):
+        return iter([MappedMode(self.link)])
+
+    def wait_for_reception(self, timeout=10):
+        self.link.deliver_mode()
+        self.link.send_tpdo()
+        return 1.0
+
+
+class MappedMode:
+    index = 0x6061
+
+    def __init__(self, link):
+        self.link = link
+
+    @property
+    def raw(self):
+        return self.link.display
